@@ -8,6 +8,9 @@ require (
 	pgregory.net/rapid v1.3.0
 )
 
-require github.com/google/uuid v1.1.1 // indirect
+require (
+	github.com/google/uuid v1.1.1 // indirect
+	golang.org/x/xerrors v0.0.0-20190717185122-a985d3407aa7 // indirect
+)
 
 replace gosrc.io/xmpp => /repo
